@@ -115,7 +115,7 @@ SPEC["C05"] = {
     "bin": "semmon",
     "rule": "cases = ordered pairs (S, T) of Runtype IR types with their named definitions, judged through beff-core's public API (to_sem_type + is_subtype on a fresh SemTypeContext) against a witness search: "
             "the exact values of S (one representative per class the pair can distinguish) are enumerated and tested for (open) membership in T. Streams: all ordered pairs of types of size <= 2 over the alphabet "
-            "{null, boolean, true, number, 1, string, \"a\", arrays, 1-2-tuples with/without rest, objects over keys a/b required/optional, index signatures over string and over \"a\"|\"b\", union, intersection}; pairs with one operand of size 3 "
+            "{null, boolean, true, number, 1, string, \"a\", {}, [], arrays, 1-2-tuples with/without rest, objects over keys a/b required/optional, index signatures over string and over \"a\"|\"b\", union, intersection}; pairs with one operand of size 3 "
             "(quick: seeded 1/4 sample, thorough: all, plus a sample of 3x3); random pairs up to size 8 with 0-3 named, mutually recursive definitions; one-edit near pairs; reflexive, S<:S|T, S&T<:S and name-vs-unfolding pairs; "
             "every 4th random case additionally asks S<:T, T<:S and is_same_type on one context, the same question again, and on a fresh context in the opposite order. evaluations = judged decisions; distinct_nontrivial = distinct (constructor kinds of S, of T, answer) classes",
     "floor": {"quick": 100000, "thorough": 3000000},
@@ -125,7 +125,7 @@ SPEC["C05"] = {
         "negation on the left-hand side (the source language has none; differences are C06/C07's subject)",
     ],
     "watchdog_s": {"quick": 900, "thorough": 10800},
-    "exhaustive_subruns": ["all ordered pairs of types of size <= 2 (196 types, 38416 pairs) in both tiers", "thorough: all ordered pairs with one operand of size 3 (2156 types) and the other of size <= 2"],
+    "exhaustive_subruns": ["all ordered pairs of types of size <= 2 in both tiers (counts in the evidence counters exhaustive_size1_types / exhaustive_size2_types)", "thorough: all ordered pairs with one operand of size 3 and the other of size <= 2"],
 }
 CLAIMS["C05"] = {
     "technique": "reference-model monitor over the real decision procedure: every is_subtype answer is compared with a witness search over concrete values (independent interpreter of the type IR, no shared code with the engine); bounded-exhaustive + random + near-miss pair streams; CPU watchdog for termination",
